@@ -150,7 +150,10 @@ func c16Lines(maxNodes int) []c16Line {
 	for _, t := range small {
 		for _, u := range small {
 			if !strings.Contains(t, "fun(") && !strings.Contains(u, "fun(") {
-				out = append(out, c16Line{"---@return " + t + ", " + u + " @c1 @c2", "return", []string{t, u}},
+				out = append(out, c16Line{"---@return " + t + "?, " + u + " @c1 @c2", "return", []string{t, u}},
+					c16Line{"---@return " + t + ", " + u + "?", "return", []string{t, u}},
+					c16Line{"---@return " + t + "?", "return", []string{t}},
+					c16Line{"---@return " + t + ", " + u + " @c1 @c2", "return", []string{t, u}},
 					c16Line{"---@type " + t + ", " + u, "type", []string{t, u}})
 			}
 		}
